@@ -29,6 +29,8 @@ def opts(tier):
     o.max_segments = 5
     o.max_channels = 4
     o.many_segments_p = 0.005
+    o.short_last_p = 0.04
+    o.equal_shapes_p = 0.15
     return o
 
 
